@@ -137,7 +137,8 @@ class Report:
         if self.errors:
             for e in self.errors:
                 print(f"ANALYSIS-ERROR property={self.prop} {e}")
-            return 2
+            if not violations:
+                return 2
         for o, k in knowns:
             print(f"KNOWN-FINDING: property={self.prop} {o.rule} {o.instance}: {k.get('what', o.detail)} [{o.site}]")
         if violations:
